@@ -1,4 +1,68 @@
-(** C01 - placeholder until the corollaries are stated (see WorldProofs.v). *)
-From WB Require Import Num Base Props World WorldProofs.
-Theorem C01_blocks_placeholder : True. Proof. exact I. Qed.
-Print Assumptions C01_blocks_placeholder.
+(** * C01 - query answers are a pure function of the input file and the query.
+    Structural theorems: they hold for every interpretation of the numbers, hence for binary64.
+    Only statements, [exact] of lemmas proved elsewhere, and [Print Assumptions]. *)
+From Coq Require Import List Arith NArith Bool.
+From WB Require Import Num Base Props World WorldProofs WorldProofs2 Kernels Features FeaturesProofs.
+Import ListNotations.
+
+Section C01.
+  Context {F : Type} {NF : Num F}.
+  Notation world := (@world F).
+
+  (** a batched request returns exactly the announced number of values (random models included) *)
+  Theorem C01_size : forall (w : world) pos depth ps t r t',
+    world_ok w -> properties3d w pos depth ps t = Ok (r, t') -> length r = output_size ps.
+  Proof. exact properties3d_length. Qed.
+
+  (** the i-th block, at the prefix-sum offset, is the value of its request alone:
+      it does not depend on the other requests, their order or their multiplicity *)
+  Theorem C01_blocks : forall (w : world) pos depth ps t r t',
+    world_ok w -> world_no_random w ->
+    properties3d w pos depth ps t = Ok (r, t') ->
+    t' = t /\ length r = output_size ps /\
+    forall i p, nth_error ps i = Some p ->
+      slice (output_size (firstn i ps)) (width p) r = block_value w pos depth p.
+  Proof. exact properties3d_blocks. Qed.
+
+  (** ... and is bit-identical to the answer of the stand-alone query (3-D) *)
+  Theorem C01_block_is_standalone_3d : forall (w : world) pos depth ps t r t' i p,
+    world_ok w -> world_no_random w ->
+    properties3d w pos depth ps t = Ok (r, t') ->
+    nth_error ps i = Some p ->
+    properties3d w pos depth [p] t = Ok (slice (nth i (offsets ps) 0) (width p) r, t).
+  Proof. exact block_is_standalone. Qed.
+
+  (** ... and in the 2-D interface, velocity projection included *)
+  Theorem C01_block_is_standalone_2d : forall (w : world) p2 depth ps t r t' i p,
+    world_ok w -> world_no_random w ->
+    properties2d w p2 depth ps t = Ok (r, t') ->
+    nth_error ps i = Some p ->
+    properties2d w p2 depth [p] t = Ok (slice (nth i (offsets ps) 0) (width p) r, t).
+  Proof. exact properties2d_blocks. Qed.
+
+  (** earlier queries have no influence: after any history the same query has the same answer,
+      and a query leaves the (only) mutable state where it was *)
+  Theorem C01_history : forall (w : world) h t t1 pos d ps r t',
+    world_no_random w ->
+    run_history w h t = Ok t1 ->
+    properties3d w pos d ps t = Ok (r, t') ->
+    properties3d w pos d ps t1 = Ok (r, t1).
+  Proof. exact history_irrelevant. Qed.
+
+  (** the contracts assumed above hold for every world made of the modelled area features *)
+  Theorem C01_premises_met : forall g sph (afs : list (@area_feature F)) cs Tp Ts al cp force grav cross,
+    let w := {| w_cs := cs; w_Tp := Tp; w_Ts := Ts; w_alpha := al; w_cp := cp; w_force := force;
+                w_gravity := grav; w_cross := cross; w_features := map (area_to_feature g sph) afs |} in
+    world_ok w /\ world_no_random w.
+  Proof.
+    intros. split; unfold world_ok, world_no_random; cbn [w_features w]; apply Forall_forall; intros f Hf;
+      apply in_map_iff in Hf; destruct Hf as (a & <- & _); [apply area_paint_len | apply area_no_random].
+  Qed.
+End C01.
+
+Print Assumptions C01_size.
+Print Assumptions C01_blocks.
+Print Assumptions C01_block_is_standalone_3d.
+Print Assumptions C01_block_is_standalone_2d.
+Print Assumptions C01_history.
+Print Assumptions C01_premises_met.
